@@ -8,5 +8,6 @@ func init() {
 	register(msc.QuorumAdapters()...)
 	register(msc.DoubleSignAdapters()...)
 	commands["parentsrun"] = func(a []string) int { return msc.CmdParentsRun(a, seed()) }
+	commands["semrun"] = msc.CmdSemRun
 	commands["rootsreplay"] = func(a []string) int { return msc.CmdRootsReplay(a, seed()) }
 }
